@@ -383,17 +383,6 @@ func probeLegacyRec() bool {
 	return legacy
 }
 
-func probeLegacyMap() bool {
-	legacy := false
-	hx.Safely(func() {
-		js, err := gozod.ToJSONSchema(gozod.Map(gozod.String().Min(2), gozod.Int()))
-		if err == nil && js != nil && js.PropertyNames == nil {
-			legacy = true
-		}
-	})
-	return legacy
-}
-
 // jsonable: the value Parse returned, with map[any]any (ZodMap's result type) turned into map[string]any.
 func jsonable(v any) any {
 	switch x := v.(type) {
@@ -610,10 +599,8 @@ func runC07(cfg hx.Config) error {
 		r.rawDocs, _ = os.Create(p)
 		defer r.rawDocs.Close()
 	}
-	// probe: does convertMap carry the key schema into the document?  (The model is the converter with the fix
-	// C07-map-key-schema; until it lands the old converter's document is the model's `toDocL false true`.)
-	legacyMap = probeLegacyMap()
-	out.Count("probe:convertMap-drops-key-schema=" + b01(legacyMap))
+	// probe: does convertLazy give a cycle that does not close at the root its own $defs entry?  (The model is the
+	// converter with the fix C07-lazy-ref-nonroot; until it lands the old document is the model's `validTL`.)
 	legacyRec = probeLegacyRec()
 	out.Count("probe:convertLazy-answers-nonroot-cycle-with-#=" + b01(legacyRec))
 	corpus := corpusSchemas()
@@ -656,7 +643,7 @@ func runC07(cfg hx.Config) error {
 			}
 			// Lazy on top of the schema (the model has Lazy at the top only): once or twice, with the lazy schema's own
 			// Optional()/Nilable() flags
-			if rng.Chance(12) {
+			if rng.Chance(12) && s.K != "recv" {
 				s = lazy(hx.Pick(rng, []string{"--", "--", "--", "-n", "o-", "on"}), s)
 				if rng.Chance(25) {
 					s = lazy(hx.Pick(rng, []string{"--", "--", "-n", "o-"}), s)
